@@ -15,7 +15,7 @@ and the extracted executable reachability (specification) on the same script.
 import os, json, re, time
 import vlib
 
-REGK = 'SRBALTEUYZWFV'
+REGK = 'SRBALTEUYZWFVPI'
 F1_SIG = 'mark-recursion-depth'
 MAX_CHAIN_REGULAR = 20000
 
@@ -41,7 +41,8 @@ class Sim:
 
     def ptrs(self, i):
         nd = self.n[i]
-        if nd['k'] in 'SsRrBWV': return [x for x in nd['f'] if x]
+        if nd['k'] in 'SsRrBWVP': return [x for x in nd['f'] if x]
+        if nd['k'] == 'I': return []
         if nd['k'] == 'F': return []
         if nd['k'] in 'TEYZ': return list(nd['kv'].values())
         return list(nd['items'])
@@ -159,6 +160,32 @@ class Sim:
         if len(self.stack) > 4000:
             for j in sorted(self.stack)[:500]:
                 if j != keep and j not in self.owned: self.drop(j)
+
+    VIEW_INPUTS = 'ALUTEYZ'
+
+    def view(self, k, a=0, b=0):
+        """heap view object (z Zip(a, b), l Slice(a), m Map(a), f Filter(a), r Range) allocated with new(); the managed
+        objects its constructor allocates take the following ids and are never used directly by the script"""
+        i = self.nid + 1
+        def mk(j, kind, f=(), items=()):
+            self.n[j] = {'k': kind, 'root': False, 'f': list(f), 'items': list(items), 'kv': {}}
+        if k == 'z':
+            mk(i, 'P', [i + 1, i + 2]); mk(i + 1, 'U', items=[a, b]); mk(i + 2, 'U'); extra = [i + 1, i + 2]
+        elif k == 'l':
+            mk(i, 'P', [a, i + 1]); mk(i + 1, 'P', [i + 2]); mk(i + 2, 'I', []); extra = [i + 1, i + 2]
+        elif k == 'r':
+            mk(i, 'P', [i + 1]); mk(i + 1, 'I', []); extra = [i + 1]
+        else:
+            mk(i, 'P', [a]); extra = []
+        self.nid = i + len(extra)
+        self.ids.append(i)                       # the internal objects are not offered as targets or subjects
+        self.owned.update(extra)
+        self.stack.add(i)
+        ins = '' if k == 'r' else ('=%d,%d' % (a, b) if k == 'z' else '=%d' % a)
+        self.emit('V%d%s%s' % (i, k, ins)); self.dirty()
+        return i
+
+    def use(self, i): self.emit('O%d' % i)
 
     def chain(self, n, kind, tail=0):
         """singly linked chain of n nodes of one kind (R Ref, B Box, S struct, U Tuple cons cell, V user type with a
@@ -641,6 +668,38 @@ def gen_finaliser(rng):
     return s.script()
 
 
+def gen_views(rng):
+    """heap view objects (Zip, Slice, Map, Filter, Range allocated with new) holding the ONLY reference to managed
+    containers: the inputs are built and filled, handed to the view, all their other roots are dropped, collections run,
+    the view is used (iterated), then dropped"""
+    s = Sim(rng)
+    views = []
+    for _ in range(rng.randrange(1, 4)):
+        k = rng.choice('zzlmfr')
+        ins = []
+        for _ in range({'z': 2, 'r': 0}.get(k, 1)):
+            c = s.new(rng.choice(Sim.VIEW_INPUTS))
+            for _ in range(rng.randrange(0, 5)):
+                x = s.new(rng.choice('SR')); s.link(c, x); s.drop(x)
+            ins.append(c)
+        v = s.view(k, *ins)
+        for c in ins: s.drop(c)
+        if rng.random() < .5:
+            r = root_somehow(s, v, rng)
+        else:
+            r = ('stack', v)
+        views.append((v, r))
+        if rng.random() < .4: s.collect(narrow=rng.random() < .5)
+        if rng.random() < .3: s.burst(rng.choice([5, 40]))
+    s.exact(); s.collect()
+    for v, r in views: s.use(v)
+    s.burst(30); s.exact()
+    for v, r in views:
+        s.use(v); unroot(s, r)
+        s.exact()
+    return s.script()
+
+
 DEEP_KINDS = 'RBSUV'
 
 
@@ -730,6 +789,7 @@ def gen_case1(rng, size):
     r = rng.random()
     if r < .08: return gen_finaliser(rng)
     if r < .16: return gen_bulk(rng)
+    if r < .22: return gen_views(rng)
     if r < .50: return gen_random(rng, size, max(12, size * 3))
     if r < .62: return gen_chain(rng, rng.choice([1, 2, 5, 20, 100, min(size * 2, 400)]))
     if r < .72: return gen_tuple_dag(rng, rng.randrange(2, 14), rng.choice([1, 2, 2, 3]))
@@ -756,6 +816,22 @@ def valid_script(case):
             v = [int(x) for x in re.findall(r'\d+', rest)]
             if c == '@': continue
             if c in 'NCGHM' and s.pending_finalisers(): return False      # only an exact collection may finalise an F node
+            if c == 'O':
+                if v[0] not in s.n or s.n[v[0]]['k'] != 'P' or not s.usable(v[0]): return False
+                continue
+            if c == 'V':
+                m = re.match(r'(\d+)([zlmfr])(?:=(\d+)(?:,(\d+))?)?$', rest)
+                if not m or s.pending_finalisers() or not owned_ok(): return False
+                i, k = int(m.group(1)), m.group(2)
+                a, b = int(m.group(3) or 0), int(m.group(4) or 0)
+                need = {'z': 2, 'r': 0}.get(k, 1)
+                if [a, b][:need].count(0) or (need < 2 and b) or (need == 0 and a): return False
+                for t in [a, b][:need]:
+                    if t not in s.n or s.n[t]['k'] not in Sim.VIEW_INPUTS or not s.usable(t) or t in s.owned: return False
+                if i <= s.nid or any(i <= q[0] <= i + 2 for q in s.qcfg.values()): return False
+                s.nid = i - 1
+                s.view(k, a, b)
+                continue
             if c == 'L':
                 m = re.match(r'(\d+),(\d+),([RBSUV]),(\d+)$', rest)
                 if not m or s.pending_finalisers() or not owned_ok(): return False
@@ -984,6 +1060,8 @@ def corr(case, impl, model):
 def nontrivial(case, impl):
     """some collection kept at least two nodes while at least one node had been reclaimed"""
     created = set(int(x) for x in re.findall(r'[NC](\d+)[A-Z=]', case))
+    for m in re.finditer(r'V(\d+)([zlmfr])', case):
+        created |= set(range(int(m.group(1)), int(m.group(1)) + {'z': 3, 'l': 3, 'r': 2}.get(m.group(2), 1)))
     for m in re.finditer(r'L(\d+),(\d+),[RBSUV]', case):
         created |= set(range(int(m.group(1)), int(m.group(1)) + int(m.group(2))))
     for m in re.finditer(r'B\d+,[cas],(\d+),(\d+)', case):
@@ -1013,6 +1091,9 @@ def classify(case, impl, why):
 
 
 CORPUS = [
+    # seed C18-r6-1: containers reachable only through a heap Zip / Slice / Map / Filter
+    'N1A N2S I1,0=2 K-2 N3L N4S I3,0=4 K-4 V10z=1,3 K-1 K-3 E O10 G M30 E O10 K-10 E',
+    'N1L N2S I1,0=2 K-2 V10m=1 V20f=1 V30r V40l=1 K-1 E O10 O20 O30 O40 K-10 K-40 E K-20 K-30 E',
     # seed C01-r6-2: thread-local roots under keys of every legal shape, main thread and worker thread
     'N1S T+24=1 K-1 N2R T+20=2 K-2 N3S T+21=3 K-3 N4S T+22=4 K-4 N5S T+23=5 K-5 E G T-24 E',
     '@ N1S T+25=1 K-1 N2R T+26=2 K-2 N3S T+27=3 K-3 N4S T+28=4 K-4 N5S T+29=5 K-5 E G M40 E T-25 T-26 E',
